@@ -144,6 +144,11 @@ mut("c14_dag_to_cpdag_in_place_labels", "C14", "sempler/utils.py",
     "    labelled = ordered\n    labelled[ordered != 0] = UNK\n",
     "label_edges relabels the caller's ordered matrix in place")
 
+mut("c14_nd_str_sets_printoptions", "C14", "sempler/normal_distribution.py",
+    "        return \"mean:\\n\" + str(self.mean) + \"\\ncovariance:\\n\" + str(self.covariance)",
+    "        np.set_printoptions(precision=4, suppress=True)\n        return \"mean:\\n\" + str(self.mean) + \"\\ncovariance:\\n\" + str(self.covariance)",
+    "str(distribution) leaves numpy's print options changed: interpreter-wide state")
+
 # ---------------------------------------------------------------- C19
 mut("c19_predict_parents_reversed", "C19", "sempler/semi.py",
     "                    new_data = pd.DataFrame(sample[:, sorted(parents)])",
